@@ -148,7 +148,7 @@ def audit_axioms(theorems):
 
 # --------------------------------------------------------------------------- C side
 
-def build_harness(container):
+def build_harness(container, san=True):
     """compile harness/shim_<container>.c against the CURRENT /repo working tree (cached by the
     hash of every source that goes into it)"""
     shim = ROOT / "harness" / f"shim_{container}.c"
@@ -157,8 +157,9 @@ def build_harness(container):
     h.update(shim.read_bytes())
     for hf in sorted((ROOT / "harness").glob("*.h")):
         h.update(hf.read_bytes())
-    h.update(" ".join(CFLAGS).encode())
-    key = h.hexdigest()[:16]
+    flags = CFLAGS if san else [f for f in CFLAGS if "sanitize" not in f]
+    h.update(" ".join(flags).encode())
+    key = ("" if san else "plain_") + h.hexdigest()[:16]
     bindir = CACHE / "bin"
     bindir.mkdir(parents=True, exist_ok=True)
     exe = bindir / f"h_{container}_{key}"
@@ -171,7 +172,7 @@ def build_harness(container):
         for old in olds[:-5]:
             old.unlink()
         tmp = bindir / f".tmp_{container}_{os.getpid()}"
-        cmd = ["gcc"] + CFLAGS + ([] if container in ("spool", "dpool") else ["-DVERIF_WITH_POOL"]) + [f"-I{REPO}/src/include", f"-I{REPO}/src/include/sized",
+        cmd = ["gcc"] + flags + ([] if container in ("spool", "dpool") else ["-DVERIF_WITH_POOL"]) + [f"-I{REPO}/src/include", f"-I{REPO}/src/include/sized",
                                   f"-I{REPO}/src/include/memory", f"-I{REPO}/src", f"-I{REPO}/src/sized",
                                   f"-I{REPO}/src/memory", f"-I{ROOT}/harness", str(shim), "-o", str(tmp), "-lm"]
         r = sh(cmd)
@@ -185,9 +186,13 @@ ASAN_ENV = dict(os.environ, ASAN_OPTIONS="detect_leaks=0:abort_on_error=0:exitco
                 UBSAN_OPTIONS="print_stacktrace=1:halt_on_error=1:exitcode=66")
 
 
-def run_c(exe, lines, timeout=120):
+def run_c(exe, lines, timeout=120, valgrind=False):
     try:
-        r = subprocess.run([str(exe)], input="\n".join(lines) + "\n", stdout=subprocess.PIPE,
+        argv = [str(exe)]
+        if valgrind:
+            argv = ["valgrind", "-q", "--error-exitcode=66", "--exit-on-first-error=yes", "--track-origins=no"] + argv
+            timeout = timeout * 20
+        r = subprocess.run(argv, input="\n".join(lines) + "\n", stdout=subprocess.PIPE,
                            stderr=subprocess.PIPE, text=True, env=ASAN_ENV, timeout=timeout, errors="replace")
         return r.stdout.split("\n")[:-1] if r.stdout.endswith("\n") else r.stdout.split("\n"), r.returncode, r.stderr
     except subprocess.TimeoutExpired as e:
@@ -297,7 +302,7 @@ def compare_history(hidx, ops, c_lines, s_lines, m_lines, crash, opts):
 
 
 def summarize_crash(stderr):
-    m = re.search(r"(ERROR: AddressSanitizer: [^\n]*|runtime error: [^\n]*|SUMMARY: [^\n]*)", stderr)
+    m = re.search(r"(ERROR: AddressSanitizer: [^\n]*|runtime error: [^\n]*|SUMMARY: [^\n]*|==\d+== (?:Invalid|Conditional|Use of|Mismatched|Source and dest)[^\n]*)", stderr)
     if m:
         return m.group(1)[:200]
     return (stderr.strip().split("\n") or ["crash"])[-1][:200]
@@ -306,10 +311,11 @@ def summarize_crash(stderr):
 class Runner:
     """runs batches of histories for one container and accumulates statistics"""
 
-    def __init__(self, container, opts=None):
+    def __init__(self, container, opts=None, valgrind=False):
         self.container = container
         self.opts = opts or {}
-        self.exe, err = build_harness(container)
+        self.valgrind = valgrind
+        self.exe, err = build_harness(container, san=not valgrind)
         if self.exe is None:
             raise RuntimeError("harness build failed for %s:\n%s" % (container, err))
         self.n_hist = 0
@@ -336,7 +342,7 @@ class Runner:
                 lines.append("reset")
                 lines.extend(histories[h])
             bounds.append(len(lines))
-            out, rc, err = run_c(self.exe, lines)
+            out, rc, err = run_c(self.exe, lines, valgrind=self.valgrind)
             nxt = []
             for k, h in enumerate(pending):
                 lo, hi = bounds[k], bounds[k + 1]
